@@ -90,14 +90,28 @@ def _wrap_can(cls, name, orig):
     @functools.wraps(orig)
     def w(self, *a, **k):
         mon = getattr(getattr(self, "env", None), "_mon", None)
-        if mon is None or mon.suppress or not mon.can_hooks:
+        if mon is None or mon.suppress:
             return orig(self, *a, **k)
+        store = getattr(self, "inbuiltstore", None)
+        if store is None:
+            store = getattr(self, "belt", None)
+        sh = mon.shadow(store) if store is not None else None
+        before = (len(sh.pend["put"]) + len(sh.grant["put"]), len(sh.pend["get"]) + len(sh.grant["get"])) if sh is not None else None
         try:
             res = orig(self, *a, **k)
         except BaseException as e:
             for h in mon.can_hooks:
                 h(self, name, None, e)
             raise
+        if sh is not None and not sh.dead:
+            after = (len(sh.pend["put"]) + len(sh.grant["put"]), len(sh.pend["get"]) + len(sh.grant["get"]))
+            mon.counters["can_query_side_effect_checks"] += 1
+            if after != before:
+                what = f"{sh.kind}:{name}-left-a-reservation-behind"
+                d = {"edge": getattr(self, "id", None), "answer": bool(res), "requests_before": before, "requests_after": after}
+                mon.violation("C10", "leaked_reservation", what, d)
+                mon.violation("C04", "query_leaves_request", what + ":it-takes-the-next-wake-up-instead-of-the-next-request-in-line", d)
+                mon.violation("C11", "can_query_side_effect", what, d)
         for h in mon.can_hooks:
             h(self, name, res, None)
         return res
